@@ -15,6 +15,10 @@ theorem insertIdx_mid {α : Type} (ys : List α) (e : α) (t : List α) : (ys ++
 theorem getElem?_mid {α : Type} (ys : List α) (y : α) (t : List α) : (ys ++ y :: t)[ys.length]? = some y := by
   simp
 theorem sizeMax_eq : sizeMax = 2 ^ 64 - 1 := by decide
+theorem eq_nil_or_snoc {α : Type} (l : List α) : l = [] ∨ ∃ ys y, l = ys ++ [y] := by
+  rcases List.eq_nil_or_concat l with h | ⟨ys, y, h⟩
+  · exact Or.inl h
+  · exact Or.inr ⟨ys, y, by rw [h]; simp⟩
 
 /-- the model iterator `(it, a)` represents the ideal cursor `c` -/
 def IterRel (it : Iter) (a : ArraySized) (c : Spec.SSeq.Cursor Elem) : Prop :=
@@ -78,7 +82,7 @@ theorem iterRemove_refines (it : Iter) (a : ArraySized) (c : Spec.SSeq.Cursor El
     rw [e1, e2]
     exact ⟨rfl, rfl, ⟨h1, h2, h3⟩, h, rfl, rfl, rfl, fun _ => ⟨rfl, rfl⟩⟩
   · have hr' : c.removed = false := by simpa using hr
-    rcases List.eq_nil_or_concat c.done with hd | ⟨ys, y, hd⟩
+    rcases eq_nil_or_snoc c.done with hd | ⟨ys, y, hd⟩
     · have h0 : it.index = 0 := by rw [h2, hd]; rfl
       have := sizeMax_gt a h
       have e1 : a.iterRemove it m = (.errOutOfRange, none, it, a, m) := by
@@ -139,7 +143,7 @@ theorem iterReplace_refines (it : Iter) (a : ArraySized) (c : Spec.SSeq.Cursor E
     (a.iterReplace it e m).2.2.1.grow = a.grow := by
   have hsz := rel_size hrel
   obtain ⟨h1, h2, h3⟩ := hrel
-  rcases List.eq_nil_or_concat c.done with hd | ⟨ys, y, hd⟩
+  rcases eq_nil_or_snoc c.done with hd | ⟨ys, y, hd⟩
   · have h0 : it.index = 0 := by rw [h2, hd]; rfl
     have := sizeMax_gt a h
     have e1 : a.iterReplace it e m = (.errOutOfRange, none, a, m) := by
@@ -185,5 +189,317 @@ theorem iterNext_at (a : ArraySized) (k : Nat) (lr : Bool) (m : Mem) (h : a.Inv)
       decide_eq_true (slot_in a h k (by have := h.2.2.1; omega)), abs_getElem?, if_pos hk]
     rfl
   · rw [if_pos (by dsimp only; omega), if_neg hk]
+
+/-! ### zip iterators -/
+/-- the model zip iterator over `(a1, a2)` represents the lock-step cursor `c` -/
+def ZipRel (it : Iter) (a1 a2 : ArraySized) (c : Spec.SSeq.ZipCursor Elem) : Prop :=
+  a1.abs = c.content1 ∧ a2.abs = c.content2 ∧ it.index = c.done1.length ∧ c.done2.length = c.done1.length ∧
+  it.lastRemoved = c.removed
+
+theorem zipInit_rel (a1 a2 : ArraySized) : ZipRel {} a1 a2 (Spec.SSeq.ZipCursor.start a1.abs a2.abs) :=
+  ⟨rfl, rfl, rfl, rfl, rfl⟩
+
+theorem zrel_size {it : Iter} {a1 a2 : ArraySized} {c : Spec.SSeq.ZipCursor Elem} (hrel : ZipRel it a1 a2 c) :
+    a1.size = c.done1.length + c.todo1.length ∧ a2.size = c.done1.length + c.todo2.length := by
+  have q1 := abs_length a1
+  have q2 := abs_length a2
+  rw [hrel.1] at q1
+  rw [hrel.2.1] at q2
+  simp [Spec.SSeq.ZipCursor.content1, Spec.SSeq.ZipCursor.content2] at q1 q2
+  have := hrel.2.2.2.1
+  omega
+
+theorem chunk_of_abs (a : ArraySized) (k : Nat) (x : List Nat) (h : a.abs[k]? = some x) : a.chunk k = x := by
+  have q1 := abs_getElem? a k
+  rw [h] at q1
+  split at q1
+  · exact (Option.some.inj q1).symm
+  · cases q1
+
+theorem zipNext_refines (it : Iter) (a1 a2 : ArraySized) (c : Spec.SSeq.ZipCursor Elem) (m : Mem)
+    (i1 : a1.Inv) (i2 : a2.Inv) (hrel : ZipRel it a1 a2 c) :
+    (zipNext it a1 a2 m).1 = c.next.1 ∧ (zipNext it a1 a2 m).2.1 = c.next.2.1 ∧
+    ZipRel (zipNext it a1 a2 m).2.2.1 a1 a2 c.next.2.2 ∧ (zipNext it a1 a2 m).2.2.2 = m := by
+  have hsz := zrel_size hrel
+  obtain ⟨h1, h2, h3, h4, h5⟩ := hrel
+  cases ht1 : c.todo1 with
+  | nil =>
+    rw [ht1] at hsz
+    have e1 : zipNext it a1 a2 m = (.iterEnd, none, it, m) := by
+      unfold zipNext
+      have : (decide (it.index ≥ a1.size) || decide (it.index ≥ a2.size)) = true := by
+        simp at hsz ⊢; omega
+      rw [this]; rfl
+    have e2 : c.next = (.iterEnd, none, c) := by unfold Spec.SSeq.ZipCursor.next; rw [ht1]
+    rw [e1, e2]
+    exact ⟨rfl, rfl, ⟨h1, h2, h3, h4, h5⟩, rfl⟩
+  | cons x t1 =>
+    cases ht2 : c.todo2 with
+    | nil =>
+      rw [ht2] at hsz
+      have e1 : zipNext it a1 a2 m = (.iterEnd, none, it, m) := by
+        unfold zipNext
+        have : (decide (it.index ≥ a1.size) || decide (it.index ≥ a2.size)) = true := by
+          simp at hsz ⊢; omega
+        rw [this]; rfl
+      have e2 : c.next = (.iterEnd, none, c) := by unfold Spec.SSeq.ZipCursor.next; rw [ht1, ht2]
+      rw [e1, e2]
+      exact ⟨rfl, rfl, ⟨h1, h2, h3, h4, h5⟩, rfl⟩
+    | cons y t2 =>
+      rw [ht1, ht2] at hsz
+      have hl1 : it.index < a1.size := by simp at hsz; omega
+      have hl2 : it.index < a2.size := by simp at hsz; omega
+      have hx : a1.chunk it.index = x := chunk_of_abs a1 _ x (by
+        rw [h1, Spec.SSeq.ZipCursor.content1, ht1, h3, getElem?_mid])
+      have hy : a2.chunk it.index = y := chunk_of_abs a2 _ y (by
+        rw [h2, Spec.SSeq.ZipCursor.content2, ht2, h3, ← h4, getElem?_mid])
+      have e1 : zipNext it a1 a2 m = (.ok, some (x, y), { index := it.index + 1, lastRemoved := false }, m) := by
+        unfold zipNext
+        have : (decide (it.index ≥ a1.size) || decide (it.index ≥ a2.size)) = false := by simp; omega
+        rw [this]
+        have s1 := slot_in a1 i1 it.index (by have := i1.2.2.1; omega)
+        have s2 := slot_in a2 i2 it.index (by have := i2.2.2.1; omega)
+        have : (decide (a1.dataLen * it.index + a1.dataLen ≤ a1.buf.length) &&
+            decide (a2.dataLen * it.index + a2.dataLen ≤ a2.buf.length)) = true := by simp only [s1, s2]; simp
+        rw [this, hx, hy]; rfl
+      have e2 : c.next = (.ok, some (x, y),
+          { done1 := c.done1 ++ [x], todo1 := t1, done2 := c.done2 ++ [y], todo2 := t2, removed := false }) := by
+        unfold Spec.SSeq.ZipCursor.next; rw [ht1, ht2]
+      rw [e1, e2]
+      refine ⟨rfl, rfl, ⟨?_, ?_, ?_, ?_, rfl⟩, rfl⟩
+      · rw [h1]; simp [Spec.SSeq.ZipCursor.content1, ht1]
+      · rw [h2]; simp [Spec.SSeq.ZipCursor.content2, ht2]
+      · simp [h3]
+      · simp [h4]
+
+theorem zipRemove_refines (it : Iter) (a1 a2 : ArraySized) (c : Spec.SSeq.ZipCursor Elem) (m : Mem)
+    (i1 : a1.Inv) (i2 : a2.Inv) (hrel : ZipRel it a1 a2 c) :
+    (zipRemove it a1 a2 m).1 = c.remove.1 ∧ (zipRemove it a1 a2 m).2.1 = c.remove.2.1 ∧
+    ZipRel (zipRemove it a1 a2 m).2.2.1 (zipRemove it a1 a2 m).2.2.2.1 (zipRemove it a1 a2 m).2.2.2.2.1 c.remove.2.2 ∧
+    (zipRemove it a1 a2 m).2.2.2.1.Inv ∧ (zipRemove it a1 a2 m).2.2.2.2.1.Inv ∧
+    (zipRemove it a1 a2 m).2.2.2.2.2 = m ∧
+    ((zipRemove it a1 a2 m).1 ≠ .ok → (zipRemove it a1 a2 m).2.2.2.1 = a1 ∧ (zipRemove it a1 a2 m).2.2.2.2.1 = a2 ∧
+      (zipRemove it a1 a2 m).2.2.1 = it) := by
+  have hsz := zrel_size hrel
+  obtain ⟨h1, h2, h3, h4, h5⟩ := hrel
+  rcases eq_nil_or_snoc c.done1 with hd | ⟨ys, y, hd⟩
+  · have h0 : it.index = 0 := by rw [h3, hd]; rfl
+    have := sizeMax_gt a1 i1
+    have e1 : zipRemove it a1 a2 m = (.errOutOfRange, none, it, a1, a2, m) := by
+      unfold zipRemove
+      have : (decide (wdec it.index ≥ a1.size) || decide (wdec it.index ≥ a2.size)) = true := by
+        unfold wdec; rw [if_pos h0]; simp; omega
+      rw [this]; rfl
+    have e2 : c.remove = (.errOutOfRange, none, c) := by
+      unfold Spec.SSeq.ZipCursor.remove; rw [hd]; rfl
+    rw [e1, e2]
+    exact ⟨rfl, rfl, ⟨h1, h2, h3, h4, h5⟩, i1, i2, rfl, fun _ => ⟨rfl, rfl, rfl⟩⟩
+  · have hd2 : ∃ zs z, c.done2 = zs ++ [z] ∧ zs.length = ys.length := by
+      rcases eq_nil_or_snoc c.done2 with hd2 | ⟨zs, z, hd2⟩
+      · rw [hd2, hd] at h4; simp at h4
+      · exact ⟨zs, z, hd2, by rw [hd2, hd] at h4; simpa using h4⟩
+    obtain ⟨zs, z, hd2, hzl⟩ := hd2
+    have hidx : it.index = ys.length + 1 := by rw [h3, hd]; simp
+    have hw : wdec it.index = ys.length := by rw [wdec_pos _ (by omega)]; omega
+    have hl1 : ys.length < a1.size := by rw [hd] at hsz; simp at hsz; omega
+    have hl2 : ys.length < a2.size := by rw [hd] at hsz; simp at hsz; omega
+    have habs1 : a1.abs = ys ++ y :: c.todo1 := by rw [h1, Spec.SSeq.ZipCursor.content1, hd]; simp
+    have habs2 : a2.abs = zs ++ z :: c.todo2 := by rw [h2, Spec.SSeq.ZipCursor.content2, hd2]; simp
+    have hrange : (decide (wdec it.index ≥ a1.size) || decide (wdec it.index ≥ a2.size)) = false := by
+      rw [hw]; simp; omega
+    have g1 : c.done1.getLast? = some y := by rw [hd]; simp
+    have g2 : c.done2.getLast? = some z := by rw [hd2]; simp
+    by_cases hr : c.removed = true
+    · have e1 : zipRemove it a1 a2 m = (.errValueNotFound, none, it, a1, a2, m) := by
+        unfold zipRemove; rw [hrange, h5, hr]; rfl
+      have e2 : c.remove = (.errValueNotFound, none, c) := by
+        unfold Spec.SSeq.ZipCursor.remove; rw [g1, g2]; dsimp only; rw [if_pos hr]
+      rw [e1, e2]
+      exact ⟨rfl, rfl, ⟨h1, h2, h3, h4, h5⟩, i1, i2, rfl, fun _ => ⟨rfl, rfl, rfl⟩⟩
+    · have hr' : c.removed = false := by simpa using hr
+      obtain ⟨s1, s2, s3, s4, s5, _⟩ := removeAt_spec a1 ys.length m i1 hl1
+      obtain ⟨t1, t2, t3, t4, t5, _⟩ := removeAt_spec a2 ys.length m i2 hl2
+      have e1 : zipRemove it a1 a2 m = (.ok, some (y, z), { index := ys.length, lastRemoved := true },
+          (a1.removeAt ys.length m).2.2.1, (a2.removeAt ys.length m).2.2.1, m) := by
+        unfold zipRemove
+        rw [hrange, h5, hr', hw]
+        simp only [Bool.false_eq_true, if_false, Bool.not_false, if_true]
+        rw [s3, s2, t2, t3, habs1, getElem?_mid, habs2, ← hzl, getElem?_mid]; rfl
+      have e2 : c.remove = (.ok, some (y, z), { c with done1 := ys, done2 := zs, removed := true }) := by
+        unfold Spec.SSeq.ZipCursor.remove; rw [g1, g2]; dsimp only; rw [if_neg hr, hd, hd2]; simp
+      rw [e1, e2]
+      refine ⟨rfl, rfl, ⟨?_, ?_, rfl, hzl, rfl⟩, s4, t4, rfl, fun hh => absurd rfl hh⟩
+      · show (a1.removeAt ys.length m).2.2.1.abs = _
+        rw [s5, habs1, eraseIdx_mid]; rfl
+      · show (a2.removeAt ys.length m).2.2.1.abs = _
+        rw [t5, habs2, ← hzl, eraseIdx_mid]; rfl
+
+theorem zipReplace_refines (it : Iter) (a1 a2 : ArraySized) (c : Spec.SSeq.ZipCursor Elem) (e1 e2 : Buf Nat) (m : Mem)
+    (i1 : a1.Inv) (i2 : a2.Inv) (he1 : e1.length = a1.dataLen) (he2 : e2.length = a2.dataLen)
+    (hrel : ZipRel it a1 a2 c) :
+    (zipReplace it a1 a2 e1 e2 m).1 = (c.replace e1 e2).1 ∧ (zipReplace it a1 a2 e1 e2 m).2.1 = (c.replace e1 e2).2.1 ∧
+    ZipRel it (zipReplace it a1 a2 e1 e2 m).2.2.1 (zipReplace it a1 a2 e1 e2 m).2.2.2.1 (c.replace e1 e2).2.2 ∧
+    (zipReplace it a1 a2 e1 e2 m).2.2.1.Inv ∧ (zipReplace it a1 a2 e1 e2 m).2.2.2.1.Inv ∧
+    (zipReplace it a1 a2 e1 e2 m).2.2.2.2 = m := by
+  have hsz := zrel_size hrel
+  obtain ⟨h1, h2, h3, h4, h5⟩ := hrel
+  rcases eq_nil_or_snoc c.done1 with hd | ⟨ys, y, hd⟩
+  · have h0 : it.index = 0 := by rw [h3, hd]; rfl
+    have := sizeMax_gt a1 i1
+    have q1 : zipReplace it a1 a2 e1 e2 m = (.errOutOfRange, none, a1, a2, m) := by
+      unfold zipReplace
+      have : (decide (wdec it.index ≥ a1.size) || decide (wdec it.index ≥ a2.size)) = true := by
+        unfold wdec; rw [if_pos h0]; simp; omega
+      rw [this]; rfl
+    have q2 : c.replace e1 e2 = (.errOutOfRange, none, c) := by
+      unfold Spec.SSeq.ZipCursor.replace; rw [hd]; rfl
+    rw [q1, q2]
+    exact ⟨rfl, rfl, ⟨h1, h2, h3, h4, h5⟩, i1, i2, rfl⟩
+  · have hd2 : ∃ zs z, c.done2 = zs ++ [z] ∧ zs.length = ys.length := by
+      rcases eq_nil_or_snoc c.done2 with hd2 | ⟨zs, z, hd2⟩
+      · rw [hd2, hd] at h4; simp at h4
+      · exact ⟨zs, z, hd2, by rw [hd2, hd] at h4; simpa using h4⟩
+    obtain ⟨zs, z, hd2, hzl⟩ := hd2
+    have hidx : it.index = ys.length + 1 := by rw [h3, hd]; simp
+    have hw : wdec it.index = ys.length := by rw [wdec_pos _ (by omega)]; omega
+    have hl1 : ys.length < a1.size := by rw [hd] at hsz; simp at hsz; omega
+    have hl2 : ys.length < a2.size := by rw [hd] at hsz; simp at hsz; omega
+    have habs1 : a1.abs = ys ++ y :: c.todo1 := by rw [h1, Spec.SSeq.ZipCursor.content1, hd]; simp
+    have habs2 : a2.abs = zs ++ z :: c.todo2 := by rw [h2, Spec.SSeq.ZipCursor.content2, hd2]; simp
+    have hrange : (decide (wdec it.index ≥ a1.size) || decide (wdec it.index ≥ a2.size)) = false := by
+      rw [hw]; simp; omega
+    have g1 : c.done1.getLast? = some y := by rw [hd]; simp
+    have g2 : c.done2.getLast? = some z := by rw [hd2]; simp
+    obtain ⟨s1, s2, s3⟩ := replaceAt_spec a1 e1 ys.length m i1 he1 hl1
+    obtain ⟨t1, t2, t3⟩ := replaceAt_spec a2 e2 ys.length m i2 he2 hl2
+    rw [s1] at s2 s3
+    rw [t1] at t2 t3
+    have q1 : zipReplace it a1 a2 e1 e2 m = (.ok, some (y, z),
+        { a1 with buf := a1.buf.memcpy (a1.dataLen * ys.length) e1 0 a1.dataLen },
+        { a2 with buf := a2.buf.memcpy (a2.dataLen * ys.length) e2 0 a2.dataLen }, m) := by
+      unfold zipReplace
+      rw [hrange, hw, s1]
+      simp only [Bool.false_eq_true, if_false]
+      rw [t1, habs1, getElem?_mid, habs2, ← hzl, getElem?_mid]; rfl
+    have q2 : c.replace e1 e2 = (.ok, some (y, z), { c with done1 := ys ++ [e1], done2 := zs ++ [e2] }) := by
+      unfold Spec.SSeq.ZipCursor.replace; rw [g1, g2]; dsimp only; rw [hd, hd2]; simp
+    rw [q1, q2]
+    refine ⟨rfl, rfl, ⟨?_, ?_, ?_, ?_, h5⟩, s2, t2, rfl⟩
+    · show ArraySized.abs _ = _
+      rw [s3, habs1, set_mid]; simp [Spec.SSeq.ZipCursor.content1]
+    · show ArraySized.abs _ = _
+      rw [t3, habs2, ← hzl, set_mid]; simp [Spec.SSeq.ZipCursor.content2]
+    · rw [h3, hd]; simp
+    · simp [hzl]
+
+theorem zipIndex_refines (it : Iter) (a1 a2 : ArraySized) (c : Spec.SSeq.ZipCursor Elem) (hrel : ZipRel it a1 a2 c) :
+    iterIndex it = c.index := by
+  unfold iterIndex Spec.SSeq.ZipCursor.index wdec Spec.SSeq.wdec
+  rw [hrel.2.2.1, sizeMax_eq]
+
+/-- with a free slot `add_at` cannot be refused -/
+theorem addAt_room (a : ArraySized) (e : Buf Nat) (index : Nat) (m : Mem) (h : a.Inv) (hg : a.GrowOk)
+    (he : e.length = a.dataLen) (hi : index ≤ a.size) (hroom : a.size < a.capacity) :
+    (a.addAt e index m).1 = .ok ∧ (a.addAt e index m).2.1.Inv ∧
+    (a.addAt e index m).2.1.abs = a.abs.insertIdx index e ∧ MemSame m (a.addAt e index m).2.2 := by
+  rcases addAt_spec a e index m h hg he hi with ⟨s1, s2, s3, _, _, _, s7⟩ | ⟨_, _, _, s4, _⟩
+  · exact ⟨s1, s2, s3, s7⟩
+  · omega
+
+theorem zipRoom_eq (a : ArraySized) (m : Mem) (h : a.Inv) :
+    (if a.size = a.capacity then expandCapacity a m else (.ok, a, m)) = a.ensureRoom m := by
+  have := h.2.2.1
+  unfold ensureRoom
+  by_cases hc : a.size = a.capacity
+  · rw [if_pos hc, if_pos (by omega)]
+  · rw [if_neg hc, if_neg (by omega)]
+
+/-- `zip_iter_add`: either both elements are inserted directly after the pair yielded last, or a
+growth was refused: then both contents are unchanged and the ledger is balanced — but the cursor
+has advanced all the same (`index = iter->index++` precedes the growth checks), which is the
+library defect recorded in `corpus/array_sized/defect_zip_iter_add_refused.ops` -/
+theorem zipAdd_spec (it : Iter) (a1 a2 : ArraySized) (c : Spec.SSeq.ZipCursor Elem) (e1 e2 : Buf Nat) (m : Mem)
+    (i1 : a1.Inv) (i2 : a2.Inv) (g1 : a1.GrowOk) (g2 : a2.GrowOk)
+    (he1 : e1.length = a1.dataLen) (he2 : e2.length = a2.dataLen) (hrel : ZipRel it a1 a2 c) :
+    ((zipAdd it a1 a2 e1 e2 m).1 = .ok ∧
+      ZipRel (zipAdd it a1 a2 e1 e2 m).2.1 (zipAdd it a1 a2 e1 e2 m).2.2.1 (zipAdd it a1 a2 e1 e2 m).2.2.2.1 (c.add e1 e2) ∧
+      (zipAdd it a1 a2 e1 e2 m).2.2.1.Inv ∧ (zipAdd it a1 a2 e1 e2 m).2.2.2.1.Inv ∧
+      MemSame m (zipAdd it a1 a2 e1 e2 m).2.2.2.2) ∨
+    ((zipAdd it a1 a2 e1 e2 m).1 = .errAlloc ∧
+      (zipAdd it a1 a2 e1 e2 m).2.2.1.abs = a1.abs ∧ (zipAdd it a1 a2 e1 e2 m).2.2.2.1.abs = a2.abs ∧
+      (zipAdd it a1 a2 e1 e2 m).2.2.1.Inv ∧ (zipAdd it a1 a2 e1 e2 m).2.2.2.1.Inv ∧
+      MemSame m (zipAdd it a1 a2 e1 e2 m).2.2.2.2 ∧
+      (zipAdd it a1 a2 e1 e2 m).2.1 = { it with index := it.index + 1 }) := by
+  have hsz := zrel_size hrel
+  obtain ⟨h1, h2, h3, h4, h5⟩ := hrel
+  unfold zipAdd
+  dsimp only
+  rw [zipRoom_eq a1 m i1]
+  rcases ensureRoom_spec a1 m i1 g1 with ⟨p1, p2, p3, p4, p5, p6, p7, p8, p9⟩ | ⟨p1, p2, p3, _⟩
+  · generalize a1.ensureRoom m = r1 at *
+    obtain ⟨st1, b1, m1⟩ := r1
+    dsimp only at *
+    subst p1
+    simp only [ne_eq, not_true_eq_false, if_false]
+    rw [zipRoom_eq a2 m1 i2]
+    rcases ensureRoom_spec a2 m1 i2 g2 with ⟨q1, q2, q3, q4, q5, q6, q7, q8, q9⟩ | ⟨q1, q2, q3, _⟩
+    · generalize a2.ensureRoom m1 = r2 at *
+      obtain ⟨st2, b2, m2⟩ := r2
+      dsimp only at *
+      subst q1
+      simp only [not_true_eq_false, if_false]
+      left
+      have hi1 : it.index ≤ b1.size := by rw [p4]; omega
+      have hi2 : it.index ≤ b2.size := by rw [q4]; omega
+      obtain ⟨u1, u2, u3, u4⟩ := addAt_room b1 e1 it.index m2 p2 (growOk_of_eq g1 p6) (by rw [p5]; exact he1) hi1 (by rw [p4]; exact p8)
+      obtain ⟨v1, v2, v3, v4⟩ := addAt_room b2 e2 it.index (b1.addAt e1 it.index m2).2.2 q2 (growOk_of_eq g2 q6)
+        (by rw [q5]; exact he2) hi2 (by rw [q4]; exact q8)
+      refine ⟨trivial, ⟨?_, ?_, ?_, ?_, h5⟩, u2, v2, MemSame.trans p9 (MemSame.trans q9 (MemSame.trans u4 v4))⟩
+      · rw [u3, p3, h1, Spec.SSeq.ZipCursor.content1, h3, insertIdx_mid]
+        simp [Spec.SSeq.ZipCursor.add, Spec.SSeq.ZipCursor.content1]
+      · rw [v3, q3, h2, Spec.SSeq.ZipCursor.content2, h3, ← h4, insertIdx_mid]
+        simp [Spec.SSeq.ZipCursor.add, Spec.SSeq.ZipCursor.content2]
+      · simp [Spec.SSeq.ZipCursor.add, h3]
+      · simp [Spec.SSeq.ZipCursor.add, h4]
+    · right
+      have hne : (a2.ensureRoom m1).1 ≠ .ok := by rcases q1 with q1 | q1 <;> rw [q1] <;> simp
+      rw [if_pos hne]
+      exact ⟨rfl, p3, by rw [q2], p2, by rw [q2]; exact i2, MemSame.trans p9 q3, rfl⟩
+  · right
+    have hne : (a1.ensureRoom m).1 ≠ .ok := by rcases p1 with p1 | p1 <;> rw [p1] <;> simp
+    rw [if_pos hne]
+    exact ⟨rfl, by rw [p2], rfl, by rw [p2]; exact i1, i2, p3, rfl⟩
+
+/-! ### CC_ARRAY_SIZED_FOREACH -/
+theorem foreachGo_spec (a : ArraySized) (m : Mem) (h : a.Inv) :
+    ∀ (f k : Nat) (lr : Bool) (acc : List (List Nat)), k ≤ a.size → a.size < k + f →
+      a.foreachGo f { index := k, lastRemoved := lr } m acc = (acc ++ a.abs.drop k, m) := by
+  intro f
+  induction f with
+  | zero => intro k lr acc h1 h2; omega
+  | succ f ih =>
+    intro k lr acc h1 h2
+    unfold foreachGo
+    rw [iterNext_at a k lr m h]
+    by_cases hk : k < a.size
+    · rw [if_pos hk]
+      dsimp only
+      rw [abs_getElem?, if_pos hk]
+      dsimp only
+      rw [ih (k + 1) false _ (by omega) (by omega)]
+      have : a.abs.drop k = a.chunk k :: a.abs.drop (k + 1) := by
+        rw [List.drop_eq_getElem_cons (by rw [abs_length]; exact hk)]
+        congr 1
+        simp [abs]
+      rw [this]; simp
+    · rw [if_neg hk]
+      dsimp only
+      rw [List.drop_of_length_le (by rw [abs_length]; omega)]; simp
+
+/-- the FOREACH macro visits every element exactly once, in index order, then stops -/
+theorem foreach_spec (a : ArraySized) (m : Mem) (h : a.Inv) : a.foreach m = (a.abs, m) := by
+  unfold foreach
+  rw [foreachGo_spec a m h (a.size + 1) 0 false [] (by omega) (by omega)]
+  simp
 
 end CC.ArraySized
